@@ -1,7 +1,33 @@
+/-
+C10 — RPE pair selection returns exactly the pairs that realise the requested delta.
+Property theorems about `Evo.Pairs` (model of evo/core/filters.py `filter_pairs_by_index/_path/_angle`,
+metrics.py `id_pairs_from_delta`, geometry.py `accumulated_distances`). Helper lemmas live in
+`Lemmas/Pairs.lean`.
+
+Vocabulary: `span l i j` is the sum of the increments `l[i] … l[j−1]`: the path length travelled
+between poses `i` and `j` for `l = steps`, the accumulated rotation for `l = cang`. The number of
+poses is `steps.length + 1` (`cang.length + 1`).
+-/
 import EvoModel.Lemmas.Pairs
 namespace Evo.C10
 open Evo Evo.Pairs
 
+/-! ## `accumulated_distances` -/
+
+/-- `accumulated_distances` has one entry per pose, starts at 0, and entry `k` is the sum of the
+first `k` step lengths; so differences of entries are travelled path lengths. -/
+theorem accDist_spec (steps : List Rat) :
+    (accDist steps).length = steps.length + 1 ∧
+    ∀ k (h : k < (accDist steps).length), (accDist steps)[k] = psum steps k :=
+  ⟨accDist_length steps, accDist_getElem steps⟩
+
+theorem accDist_diff_eq_span (steps : List Rat) (i j : Nat) (hi : i < (accDist steps).length)
+    (hj : j < (accDist steps).length) : (accDist steps)[j] - (accDist steps)[i] = span steps i j := by
+  rw [accDist_getElem, accDist_getElem]; rfl
+
+/-! ## delta in frames -/
+
+/-- all-pairs mode: exactly the pairs with `j − i = δ` -/
 theorem index_all_iff (n δ : Nat) (i j : Nat) :
     (i, j) ∈ pairsByIndex n δ true ↔ j = i + δ ∧ j < n := by
   simp only [pairsByIndex, if_true, List.mem_filterMap, List.mem_range]
@@ -12,5 +38,398 @@ theorem index_all_iff (n δ : Nat) (i j : Nat) :
     · exact absurd h (by simp)
   · rintro ⟨rfl, h⟩
     exact ⟨i, by omega, by simp [h]⟩
+
+/-- all-pairs mode: each start pose at most once, in increasing order -/
+theorem index_all_sorted (n δ : Nat) :
+    ((pairsByIndex n δ true).map Prod.fst).Pairwise (· < ·) := by
+  simp only [pairsByIndex, if_true]
+  apply filterMap_range_fst_lt
+  intro a p hp
+  split at hp
+  · simp only [Option.some.injEq] at hp; subst hp; rfl
+  · exact absurd hp (by simp)
+
+/-- consecutive mode: the chain `0→δ→2δ→…` as long as it stays inside the trajectory -/
+theorem index_consec_chain (n δ : Nat) (hδ : 1 ≤ δ) :
+    pairsByIndex n δ false = (List.range ((n - 1) / δ)).map (fun m => (m * δ, (m + 1) * δ)) := by
+  have hlen : (n + δ - 1) / δ - 1 = (n - 1) / δ := by
+    rcases Nat.eq_zero_or_pos n with rfl | hn
+    · simp only [Nat.zero_add, Nat.zero_sub, Nat.zero_div]
+      rw [Nat.div_eq_of_lt (by omega)]
+    · have : n + δ - 1 = (n - 1) + δ := by omega
+      rw [this, Nat.add_div_right _ (by omega), Nat.add_sub_cancel]
+  simp only [pairsByIndex, Bool.false_eq_true, if_false]
+  apply List.ext_getElem
+  · simp [chainPairs_length, arange, hlen]
+  · intro k h1 h2
+    rw [chainPairs_getElem]
+    simp [arange]
+
+theorem index_consec_iff (n δ : Nat) (hδ : 1 ≤ δ) (i j : Nat) :
+    (i, j) ∈ pairsByIndex n δ false ↔ ∃ m, i = m * δ ∧ j = (m + 1) * δ ∧ j < n := by
+  rw [index_consec_chain n δ hδ]
+  simp only [List.mem_map, List.mem_range, Prod.mk.injEq]
+  have key : ∀ m, m < (n - 1) / δ ↔ (m + 1) * δ < n := by
+    intro m
+    rw [show m < (n - 1) / δ ↔ m + 1 ≤ (n - 1) / δ from Iff.rfl, Nat.le_div_iff_mul_le (by omega)]
+    have : 0 < (m + 1) * δ := Nat.mul_pos (by omega) (by omega)
+    omega
+  constructor
+  · rintro ⟨m, hm, rfl, rfl⟩
+    exact ⟨m, rfl, rfl, (key m).mp hm⟩
+  · rintro ⟨m, rfl, rfl, h⟩
+    exact ⟨m, (key m).mpr h, rfl, rfl⟩
+
+theorem pairs_bounds_index (n δ : Nat) (allPairs : Bool) (hδ : 1 ≤ δ) (i j : Nat)
+    (h : (i, j) ∈ pairsByIndex n δ allPairs) : i < j ∧ j < n ∧ j - i = δ := by
+  cases allPairs with
+  | true =>
+    obtain ⟨rfl, h2⟩ := (index_all_iff n δ i j).mp h
+    omega
+  | false =>
+    obtain ⟨m, rfl, rfl, h2⟩ := (index_consec_iff n δ hδ i j).mp h
+    have : (m + 1) * δ = m * δ + δ := by rw [Nat.add_mul, Nat.one_mul]
+    omega
+
+/-! ## delta in meters / radians / degrees, consecutive mode
+
+Both selectors run the same greedy loop; `l` is `steps` resp. `cang`. -/
+
+/-- each pair starts where the previous one ended (path) -/
+theorem consec_is_chain_path (steps : List Rat) (δ : Rat) (k : Nat)
+    (h : k + 1 < (pairsByPathConsec steps δ).length) :
+    (pairsByPathConsec steps δ)[k + 1].1 = (pairsByPathConsec steps δ)[k].2 := by
+  unfold pairsByPathConsec at h ⊢
+  rw [chainPairs_getElem, chainPairs_getElem]
+
+/-- each pair starts where the previous one ended, the first one at pose 0 (angle) -/
+theorem consec_is_chain_angle (cang : List Rat) (δ : Rat) :
+    (∀ k (h : k + 1 < (pairsByAngleConsec cang δ).length),
+      (pairsByAngleConsec cang δ)[k + 1].1 = (pairsByAngleConsec cang δ)[k].2) ∧
+    (∀ h : pairsByAngleConsec cang δ ≠ [], ((pairsByAngleConsec cang δ).head h).1 = 0) := by
+  unfold pairsByAngleConsec
+  refine ⟨?_, ?_⟩
+  · intro k h
+    rw [chainPairs_getElem, chainPairs_getElem]
+  · intro h
+    rw [chainPairs_head_fst]; rfl
+
+private theorem consec_reach (l : List Rat) (δ : Rat) (ids : List Nat)
+    (hids : ids = 0 :: reachGo δ l 1 0 ∨ ids = reachGo δ l 1 0) (i j : Nat)
+    (h : (i, j) ∈ chainPairs ids) :
+    i < j ∧ j ≤ l.length ∧ δ ≤ span l i j ∧ ∀ m, i < m → m < j → span l i m < δ := by
+  obtain ⟨hch, hb, _⟩ := ids_spec l δ ids hids
+  obtain ⟨k, hk, hp⟩ := mem_chainPairs.mp h
+  simp only [Prod.mk.injEq] at hp
+  obtain ⟨rfl, rfl⟩ := hp
+  obtain ⟨h1, h2, h3⟩ := isChain_getElem hch k hk
+  exact ⟨h1, hb _ (List.getElem_mem _), h2, h3⟩
+
+/-- for a selected pair `(i, j)`: the path travelled since `i` reaches `δ` at `j` and at no earlier
+pose; indices are in range -/
+theorem consec_j_first_reaching_path (steps : List Rat) (δ : Rat) (i j : Nat)
+    (h : (i, j) ∈ pairsByPathConsec steps δ) :
+    i < j ∧ j < steps.length + 1 ∧ δ ≤ span steps i j ∧ ∀ m, i < m → m < j → span steps i m < δ := by
+  obtain ⟨h1, h2, h3, h4⟩ := consec_reach steps δ (pathIds steps δ)
+    (by rw [pathIds_eq]; split <;> simp) i j h
+  exact ⟨h1, by omega, h3, h4⟩
+
+/-- the same for the accumulated rotation -/
+theorem consec_j_first_reaching_angle (cang : List Rat) (δ : Rat) (i j : Nat)
+    (h : (i, j) ∈ pairsByAngleConsec cang δ) :
+    i < j ∧ j < cang.length + 1 ∧ δ ≤ span cang i j ∧ ∀ m, i < m → m < j → span cang i m < δ := by
+  obtain ⟨h1, h2, h3, h4⟩ := consec_reach cang δ (0 :: angleEnds cang δ) (Or.inl rfl) i j h
+  exact ⟨h1, by omega, h3, h4⟩
+
+/-- the path chain starts exactly at the first pose that reaches `δ` from the beginning
+(hence "no later than" it) -/
+theorem consec_start_not_later_than_first_reach_path (steps : List Rat) (δ : Rat) (hδ : 0 < δ)
+    (h : pairsByPathConsec steps δ ≠ []) :
+    δ ≤ span steps 0 ((pairsByPathConsec steps δ).head h).1 ∧
+    ∀ m, m < ((pairsByPathConsec steps δ).head h).1 → span steps 0 m < δ := by
+  unfold pairsByPathConsec at h ⊢
+  rw [chainPairs_head_fst]
+  have hne : pathIds steps δ ≠ [] := by intro hn; simp [hn, chainPairs] at h
+  have hid : pathIds steps δ = reachGo δ steps 1 0 := by
+    rw [pathIds_eq, if_neg (not_le.mpr hδ)]
+  obtain ⟨hch, _, _⟩ := ends_spec steps δ
+  simp only [hid] at hne ⊢
+  obtain ⟨_, h2, h3⟩ := head_reach hch hne
+  refine ⟨h2, ?_⟩
+  intro m hm
+  rcases Nat.eq_zero_or_pos m with rfl | hm0
+  · rw [span_self]; exact hδ
+  · exact h3 m hm0 hm
+
+/-- the angle chain starts at pose 0, which is not later than any pose -/
+theorem consec_start_not_later_than_first_reach_angle (cang : List Rat) (δ : Rat)
+    (h : pairsByAngleConsec cang δ ≠ []) (m : Nat) :
+    ((pairsByAngleConsec cang δ).head h).1 ≤ m := by
+  rw [(consec_is_chain_angle cang δ).2 h]; exact Nat.zero_le m
+
+/-- after the end of the last pair the rest of the trajectory no longer reaches `δ` (path) -/
+theorem consec_maximal_path (steps : List Rat) (δ : Rat) (h : pairsByPathConsec steps δ ≠ []) (m : Nat)
+    (hm : ((pairsByPathConsec steps δ).getLast h).2 < m) (hml : m < steps.length + 1) :
+    span steps ((pairsByPathConsec steps δ).getLast h).2 m < δ := by
+  unfold pairsByPathConsec at h hm ⊢
+  rw [chainPairs_getLast_snd] at hm ⊢
+  obtain ⟨_, _, h3⟩ := ids_spec steps δ (pathIds steps δ) (by rw [pathIds_eq]; split <;> simp)
+  exact h3 _ m hm (by omega)
+
+/-- after the end of the last pair the rest of the trajectory no longer reaches `δ` (angle) -/
+theorem consec_maximal_angle (cang : List Rat) (δ : Rat) (h : pairsByAngleConsec cang δ ≠ []) (m : Nat)
+    (hm : ((pairsByAngleConsec cang δ).getLast h).2 < m) (hml : m < cang.length + 1) :
+    span cang ((pairsByAngleConsec cang δ).getLast h).2 m < δ := by
+  unfold pairsByAngleConsec at h hm ⊢
+  rw [chainPairs_getLast_snd] at hm ⊢
+  obtain ⟨_, _, h3⟩ := ids_spec cang δ (0 :: angleEnds cang δ) (Or.inl rfl)
+  exact h3 _ m hm (by omega)
+
+/-- no angle pair at all ⇒ the accumulated rotation never reaches `δ` from pose 0 -/
+theorem consec_empty_angle (cang : List Rat) (δ : Rat) (h : pairsByAngleConsec cang δ = [])
+    (m : Nat) (hm : 0 < m) (hml : m < cang.length + 1) : span cang 0 m < δ := by
+  have he : angleEnds cang δ = [] := by
+    cases hr : angleEnds cang δ with
+    | nil => rfl
+    | cons e r => simp [pairsByAngleConsec, hr, chainPairs] at h
+  obtain ⟨_, _, h3⟩ := ends_spec cang δ
+  unfold angleEnds at he
+  simp only [he, List.getLast_singleton] at h3
+  exact h3 m hm (by omega)
+
+/-- no path pair at all (`δ > 0`) ⇒ either no pose reaches `δ` from the beginning, or the first one
+that does (`f`) is not followed by a pose reaching `δ` from `f` -/
+theorem consec_empty_path (steps : List Rat) (δ : Rat) (hδ : 0 < δ) (h : pairsByPathConsec steps δ = []) :
+    (∀ m, m < steps.length + 1 → span steps 0 m < δ) ∨
+    ∃ f, f < steps.length + 1 ∧ δ ≤ span steps 0 f ∧ (∀ m, m < f → span steps 0 m < δ) ∧
+      ∀ m, f < m → m < steps.length + 1 → span steps f m < δ := by
+  have hid : pathIds steps δ = reachGo δ steps 1 0 := by
+    rw [pathIds_eq, if_neg (not_le.mpr hδ)]
+  obtain ⟨hch, hb, h3⟩ := ends_spec steps δ
+  unfold pairsByPathConsec at h
+  rw [hid] at h
+  cases hr : reachGo δ steps 1 0 with
+  | nil =>
+    left
+    intro m hml
+    simp only [hr, List.getLast_singleton] at h3
+    rcases Nat.eq_zero_or_pos m with rfl | hm0
+    · rw [span_self]; exact hδ
+    · exact h3 m hm0 (by omega)
+  | cons e r =>
+    cases r with
+    | cons e' r' => simp [hr, chainPairs] at h
+    | nil =>
+      right
+      rw [hr] at hch hb h3
+      obtain ⟨_, h2, h4⟩ := (List.isChain_cons_cons.mp hch).1
+      refine ⟨e, ?_, h2, ?_, ?_⟩
+      · have := hb e (by simp); omega
+      · intro m hm
+        rcases Nat.eq_zero_or_pos m with rfl | hm0
+        · rw [span_self]; exact hδ
+        · exact h4 m hm0 hm
+      · intro m hm hml
+        have := h3 m (by simpa using hm) (by omega)
+        simpa using this
+
+/-! ## delta in meters, all-pairs mode -/
+
+/-- a selected pair lies within the tolerance: `|path(i..j) − δ| ≤ tol` -/
+theorem pathAll_within_tol (acc : List Rat) (δ tol : Rat) (i j : Nat)
+    (h : (i, j) ∈ pairsByPathAll acc δ tol) :
+    ∃ (hi : i < acc.length) (hj : j < acc.length), i < j ∧ |acc[j] - acc[i] - δ| ≤ tol := by
+  obtain ⟨hi, hj, hij, _, hle⟩ := pathAll_spec h
+  exact ⟨hi, hj, hij, by rw [← absR_eq_abs]; exact hle⟩
+
+/-- `j` is the closest pose for that `i` (the first one among equally close ones) -/
+theorem pathAll_j_closest (acc : List Rat) (δ tol : Rat) (i j : Nat)
+    (h : (i, j) ∈ pairsByPathAll acc δ tol) :
+    ∃ (hi : i < acc.length) (hj : j < acc.length),
+      (∀ k (hk : k < acc.length), i < k → |acc[j] - acc[i] - δ| ≤ |acc[k] - acc[i] - δ|) ∧
+      (∀ k (hk : k < acc.length), i < k → k < j → |acc[j] - acc[i] - δ| < |acc[k] - acc[i] - δ|) := by
+  obtain ⟨hi, hj, hij, hjc, _⟩ := pathAll_spec h
+  obtain ⟨_, hmin, hfirst⟩ := pathCand_spec acc δ i (by omega)
+  subst hjc
+  refine ⟨hi, hj, ?_, ?_⟩
+  · intro k hk hik; simp only [← absR_eq_abs]; exact hmin k hk hik
+  · intro k hk hik hkj; simp only [← absR_eq_abs]; exact hfirst k hk hik hkj
+
+/-- every `i` that has a pose within the tolerance is reported, and no `i` more than once
+(start poses strictly increasing) -/
+theorem pathAll_every_i_once (acc : List Rat) (δ tol : Rat) :
+    ((pairsByPathAll acc δ tol).map Prod.fst).Pairwise (· < ·) ∧
+    ∀ i, (∃ j, (i, j) ∈ pairsByPathAll acc δ tol) ↔
+      ∃ k, ∃ (hk : k < acc.length) (hik : i < k), |acc[k] - acc[i] - δ| ≤ tol := by
+  refine ⟨pathAll_fst_lt acc δ tol, ?_⟩
+  intro i
+  constructor
+  · rintro ⟨j, hj⟩
+    obtain ⟨hi, hjl, hij, hle⟩ := pathAll_within_tol acc δ tol i j hj
+    exact ⟨j, hjl, hij, hle⟩
+  · rintro ⟨k, hk, hik, hle⟩
+    exact ⟨_, pathAll_complete hk hik (by rw [absR_eq_abs]; exact hle)⟩
+
+/-! ## delta in radians / degrees, all-pairs mode -/
+
+/-- exactly all pairs whose relative rotation angle lies in the band `[δ − tol, δ + tol]` -/
+theorem angleAll_iff (ang : Nat → Nat → Rat) (n : Nat) (δ tol : Rat) (i j : Nat) :
+    (i, j) ∈ pairsByAngleAll ang n δ tol ↔ i < j ∧ j < n ∧ δ - tol ≤ ang i j ∧ ang i j ≤ δ + tol :=
+  mem_angleAll
+
+/-! ## bounds for the remaining selectors -/
+
+/-- the angle selectors receive `δ` and `tol = δ·rel_tol` converted from degrees when the unit is
+degrees (`π/180` per degree), and refuse `δ` outside `[0, π]` resp. `[0, 180]` -/
+theorem angle_dispatch (cang : List Rat) (ang : Nat → Nat → Rat) (n : Nat) (pi δ tol : Rat)
+    (degrees allPairs : Bool) :
+    pairsByAngle cang ang n pi δ tol degrees allPairs =
+      if δ < 0 ∨ (if degrees then 180 else pi) < δ then .error .filter
+      else .ok (if allPairs
+        then pairsByAngleAll ang n (if degrees then δ * (pi / 180) else δ) (if degrees then tol * (pi / 180) else tol)
+        else pairsByAngleConsec cang (if degrees then δ * (pi / 180) else δ)) := by
+  unfold pairsByAngle deg2rad; rfl
+
+
+theorem pairs_bounds_path (steps : List Rat) (δ tol : Rat) (allPairs : Bool) (i j : Nat)
+    (h : (i, j) ∈ pairsByPath steps δ tol allPairs) : i < j ∧ j < steps.length + 1 := by
+  cases allPairs with
+  | true =>
+    simp only [pairsByPath, if_true] at h
+    obtain ⟨_, hj, hij, _⟩ := pathAll_within_tol _ δ tol i j h
+    rw [accDist_length] at hj
+    exact ⟨hij, hj⟩
+  | false =>
+    simp only [pairsByPath, Bool.false_eq_true, if_false] at h
+    obtain ⟨h1, h2, _⟩ := consec_j_first_reaching_path steps δ i j h
+    exact ⟨h1, h2⟩
+
+theorem pairs_bounds_angle (cang : List Rat) (ang : Nat → Nat → Rat) (n : Nat) (pi δ tol : Rat)
+    (degrees allPairs : Bool) (hn : cang.length + 1 = n) (ps : IdPairs)
+    (hok : pairsByAngle cang ang n pi δ tol degrees allPairs = .ok ps) (i j : Nat) (h : (i, j) ∈ ps) :
+    i < j ∧ j < n := by
+  rw [angle_dispatch] at hok
+  by_cases hc : δ < 0 ∨ (if degrees then 180 else pi) < δ
+  · rw [if_pos hc] at hok; cases hok
+  · rw [if_neg hc] at hok
+    cases hok
+    cases allPairs with
+    | true =>
+      simp only [if_true] at h
+      obtain ⟨h1, h2, _⟩ := mem_angleAll.mp h
+      exact ⟨h1, h2⟩
+    | false =>
+      simp only [Bool.false_eq_true, if_false] at h
+      obtain ⟨h1, h2, _⟩ := consec_j_first_reaching_angle cang _ i j h
+      exact ⟨h1, by omega⟩
+
+/-! ## `id_pairs_from_delta` -/
+
+/-- the pose list is consistent: `n` poses, `n − 1` steps and consecutive angles -/
+def WF (inp : Input) : Prop := inp.steps.length + 1 = inp.n ∧ inp.cang.length + 1 = inp.n
+
+/-- the selector that `id_pairs_from_delta` dispatches to -/
+def selected (inp : Input) (δ : Rat) (u : DUnit) (relTol : Rat) (allPairs : Bool) : Except Err IdPairs :=
+  match u with
+  | .frames => .ok (pairsByIndex inp.n (toFrames δ) allPairs)
+  | .meters => .ok (pairsByPath inp.steps δ (δ * relTol) allPairs)
+  | .radians => pairsByAngle inp.cang inp.ang inp.n inp.pi δ (δ * relTol) false allPairs
+  | .degrees => pairsByAngle inp.cang inp.ang inp.n inp.pi δ (δ * relTol) true allPairs
+  | .other => .error .filter
+
+/-- unit dispatch with the absolute tolerance `δ·rel_tol`; a result is returned iff the selector
+returns a non-empty list, and it is that list; everything else is evo's filter error (empty
+selection, angle outside `[0, π]` / `[0, 180]`, unsupported unit) -/
+theorem empty_is_filter_error (inp : Input) (δ : Rat) (u : DUnit) (relTol : Rat) (allPairs : Bool) :
+    (∀ ps, idPairsFromDelta inp δ u relTol allPairs = .ok ps ↔
+        (selected inp δ u relTol allPairs = .ok ps ∧ ps ≠ [])) ∧
+    (idPairsFromDelta inp δ u relTol allPairs = .error .filter ↔
+        (selected inp δ u relTol allPairs = .ok [] ∨ selected inp δ u relTol allPairs = .error .filter)) := by
+  have hsel : idPairsFromDelta inp δ u relTol allPairs =
+      (match selected inp δ u relTol allPairs with
+        | .error e => .error e
+        | .ok ps => if ps.isEmpty then .error .filter else .ok ps) := by
+    unfold idPairsFromDelta selected; cases u <;> rfl
+  rw [hsel]
+  cases hs : selected inp δ u relTol allPairs with
+  | error e =>
+    cases e
+    simp
+  | ok qs =>
+    cases qs with
+    | nil => simp
+    | cons q r => simp
+
+/-- through `id_pairs_from_delta` the angle pairs are exactly all pairs whose relative rotation
+angle lies within `δ·(1 ± rel_tol)` (radians) -/
+theorem angleAll_iff_rel (inp : Input) (δ relTol : Rat) (ps : IdPairs)
+    (hok : idPairsFromDelta inp δ .radians relTol true = .ok ps) (i j : Nat) :
+    (i, j) ∈ ps ↔ i < j ∧ j < inp.n ∧ δ * (1 - relTol) ≤ inp.ang i j ∧ inp.ang i j ≤ δ * (1 + relTol) := by
+  obtain ⟨hsel, _⟩ := ((empty_is_filter_error inp δ .radians relTol true).1 ps).mp hok
+  simp only [selected, angle_dispatch, Bool.false_eq_true, if_false, if_true] at hsel
+  split at hsel
+  · exact absurd hsel (by simp)
+  · simp only [Except.ok.injEq] at hsel
+    subst hsel
+    rw [mem_angleAll]
+    have e1 : δ - δ * relTol = δ * (1 - relTol) := by ring
+    have e2 : δ + δ * relTol = δ * (1 + relTol) := by ring
+    rw [e1, e2]
+
+/-- through `id_pairs_from_delta` a path pair lies within `δ·rel_tol` of `δ` -/
+theorem pathAll_within_rel_tol (inp : Input) (δ relTol : Rat) (ps : IdPairs)
+    (hok : idPairsFromDelta inp δ .meters relTol true = .ok ps) (i j : Nat) (h : (i, j) ∈ ps) :
+    |span inp.steps i j - δ| ≤ δ * relTol := by
+  obtain ⟨hsel, _⟩ := ((empty_is_filter_error inp δ .meters relTol true).1 ps).mp hok
+  simp only [selected, pairsByPath, if_true, Except.ok.injEq] at hsel
+  subst hsel
+  obtain ⟨hi, hj, _, hle⟩ := pathAll_within_tol _ _ _ i j h
+  rw [accDist_diff_eq_span] at hle
+  exact hle
+
+/-- **every selected pair satisfies `0 ≤ i < j < N`** (`δ ≥ 1` for frames) -/
+theorem pairs_bounds (inp : Input) (hwf : WF inp) (δ : Rat) (u : DUnit) (relTol : Rat) (allPairs : Bool)
+    (hδ : u = .frames → 1 ≤ toFrames δ) (ps : IdPairs)
+    (hok : idPairsFromDelta inp δ u relTol allPairs = .ok ps) (i j : Nat) (h : (i, j) ∈ ps) :
+    i < j ∧ j < inp.n := by
+  obtain ⟨hsel, _⟩ := ((empty_is_filter_error inp δ u relTol allPairs).1 ps).mp hok
+  cases u with
+  | frames =>
+    simp only [selected, Except.ok.injEq] at hsel
+    subst hsel
+    obtain ⟨h1, h2, _⟩ := pairs_bounds_index inp.n _ allPairs (hδ rfl) i j h
+    exact ⟨h1, h2⟩
+  | meters =>
+    simp only [selected, Except.ok.injEq] at hsel
+    subst hsel
+    have := pairs_bounds_path inp.steps δ _ allPairs i j h
+    rw [hwf.1] at this; exact this
+  | radians => exact pairs_bounds_angle _ _ _ _ _ _ _ _ hwf.2 ps hsel i j h
+  | degrees => exact pairs_bounds_angle _ _ _ _ _ _ _ _ hwf.2 ps hsel i j h
+  | other => simp [selected] at hsel
+
+/-! ## non-vacuity: the hypotheses are satisfiable and the selectors select something -/
+
+/-- a 5-pose pose list: steps 1,1,3,1; consecutive rotations 1,1,2,1 (unit π/8); direct angles -/
+def exInput : Input :=
+  { n := 5, steps := [1, 1, 3, 1], cang := [1, 1, 2, 1],
+    ang := fun i j => if j = i + 1 then (if i = 2 then 2 else 1) else ((j : Rat) - i), pi := 8 }
+
+example : WF exInput := ⟨rfl, rfl⟩
+example : pairsByIndex 7 2 false = [(0, 2), (2, 4), (4, 6)] := by decide +kernel
+example : pairsByIndex 7 2 true = [(0, 2), (1, 3), (2, 4), (3, 5), (4, 6)] := by decide +kernel
+example : accDist [1, 1, 3, 1] = [0, 1, 2, 5, 6] := by decide +kernel
+-- δ hit exactly at pose 2 (path 2), then 3 ≥ 2 at pose 3; pose 4 no longer reaches δ from 3
+example : pairsByPathConsec [1, 1, 3, 1] 2 = [(2, 3)] := by decide +kernel
+example : pairsByPathConsec [1, 1, 3, 1] 7 = [] := by decide +kernel
+example : pairsByPathAll (accDist [1, 1, 3, 1]) 2 (1/2) = [(0, 2)] := by decide +kernel
+example : pairsByPathAll (accDist [1, 1, 3, 1]) 2 1 = [(0, 2), (1, 2), (2, 3), (3, 4)] := by decide +kernel
+example : pairsByAngleConsec [1, 1, 2, 1] 2 = [(0, 2), (2, 3)] := by decide +kernel
+example : pairsByAngleAll exInput.ang 5 2 (1/2) = [(0, 2), (1, 3), (2, 3), (2, 4)] := by decide +kernel
+example : idPairsFromDelta exInput 2 .meters (1/4) true = .ok [(0, 2)] := by decide +kernel
+example : idPairsFromDelta exInput 45 .degrees 0 false = .ok [(0, 2), (2, 3)] := by decide +kernel
+example : idPairsFromDelta exInput 7 .meters (1/10) false = .error .filter := by decide +kernel
+example : idPairsFromDelta exInput 9 .radians 0 false = .error .filter := by decide +kernel
+example : idPairsFromDelta exInput 2 .frames (1/10) false = .ok [(0, 2), (2, 4)] := by decide +kernel
 
 end Evo.C10
